@@ -940,6 +940,17 @@ def check_e2e(ctx, case: dict, builds, logs):
             ctx.dist["e2e:undocumented_name_rejected"] += 1
             return
     labels = [b.get("label", f"main{i}") for i, b in enumerate(builds)]
+    for i, lines in zip(labels, logs):      # where the catalogs store their files (known even if the build then fails)
+        locs: dict[tuple, set] = {}
+        for rec in lines:
+            if rec["k"] == "loc":
+                locs.setdefault(tuple(rec["cat"]), set()).add(rec["path"])
+        for c, ps in locs.items():
+            if len(ps) > 1:
+                ctx.violation(f"root-split: catalog {s_of(c)[:30]!r} constructed in modules of one project (top marked by: "
+                              f"{case['layout']['kind']}) resolves to {len(ps)} different storage directories in build {i}: "
+                              f"{sorted(os.path.relpath(p, os.path.commonpath(sorted(ps))) for p in ps)[:3]}", rep, finding=fid)
+                return
     for i, b in zip(labels, builds):
         if b["crash"] or b["exit_code"] != 0:
             ctx.violation(f"e2e-exit: build {i} of a project whose tasks only pass values through catalog entries ended with "
@@ -950,10 +961,8 @@ def check_e2e(ctx, case: dict, builds, logs):
     for bi, (i, lines) in enumerate(zip(labels, logs)):
         if i.startswith("mem"):
             last = {k: v for k, v in last.items() if k[0] != tuple(memory["name"])}    # in-memory entries are empty in a new session
-        locs: dict[tuple, set] = {}
         for rec in lines:
             if rec["k"] == "loc":
-                locs.setdefault(tuple(rec["cat"]), set()).add(rec["path"])
                 continue
             if rec["k"] == "shape":
                 if rec["n"] != rec["want"]:
@@ -977,11 +986,6 @@ def check_e2e(ctx, case: dict, builds, logs):
                         f"e2e-value: consumer {rec['tag']} of ({s_of(rec['cat'])[:20]!r}, {s_of(rec['entry'])[:20]!r}) in build {i} received "
                         f"{rec['canon'][:60]!r}; the value last returned into that entry was {str(last.get(key))[:60]!r}", rep, finding=fid)
                     return
-        for c, ps in locs.items():
-            if len(ps) > 1:
-                ctx.violation(f"root-split: catalog {s_of(c)[:30]!r} constructed in modules of one project (top marked by: "
-                              f"{case['layout']['kind']}) resolves to {len(ps)} different storage directories in build {i}", rep, finding=fid)
-                return
     ctx.dist[f"e2e:consumers_run={ncons}"] += 1
     if case.get("layout"):
         ctx.dist[f"e2e:layout={case['layout']['kind']}"] += 1
